@@ -1,12 +1,13 @@
 package main
 
 import (
-	"golang.org/x/tools/go/ssa"
-	"go/constant"
 	"fmt"
 	"go/ast"
+	"go/constant"
 	"go/token"
 	"go/types"
+	"golang.org/x/tools/go/ssa"
+	"os"
 	"sort"
 	"strings"
 )
@@ -26,135 +27,262 @@ func ruleFmt(c *Ctx) {
 		c.undecided("anchor:parseFmtTypes", token.NoPos, "parseFmtTypes/sprintf not found")
 		return
 	}
-	// the switch over the conversion letter: the switch whose cases are byte constants incl. 's' and 'd'
-	var letterSw *ast.SwitchStmt
-	ast.Inspect(pf.Body, func(n ast.Node) bool {
-		sw, ok := n.(*ast.SwitchStmt)
-		if !ok || sw.Tag == nil {
-			return true
+	facts := fmtParseFactsOf(c)
+	if os.Getenv("SVERIF_DEBUG_FMT") != "" {
+		fmt.Fprintf(os.Stderr, "fmtparse: ok=%v undecided=%v accepted=%d rejected=%d tags=%v goUnknown=%v gBare=%v gPrecKept=%v gAfterPrec=%v star=%v earlyEnd=%v percent=%v\n", facts.ok, facts.undecided, len(facts.accepted), len(facts.rejected), facts.tags, facts.goUnknown, facts.gBare, facts.gPrecKept, facts.gAfterPrec, facts.star, facts.earlyEnd, facts.percent)
+		for l, o := range facts.accepted {
+			fmt.Fprintf(os.Stderr, "  %%%s -> %q tags %q\n", l, o.format, o.tags)
 		}
-		has := map[string]bool{}
-		for _, cs := range sw.Body.List {
-			for _, e := range cs.(*ast.CaseClause).List {
-				if bl, ok := e.(*ast.BasicLit); ok {
-					has[bl.Value] = true
-				}
-			}
-		}
-		if has["'s'"] && has["'d'"] {
-			letterSw = sw
-		}
-		return true
-	})
-	if letterSw == nil {
-		c.undecided("letters", pf.Pos(), "conversion-letter switch not found in parseFmtTypes")
-		return
 	}
-	letters := map[string]bool{}
-	tags := map[string]bool{}
-	defaultErr := false
-	gClauseDistinct := false
-	for _, cs := range letterSw.Body.List {
-		cc := cs.(*ast.CaseClause)
-		if cc.List == nil {
-			for _, s := range cc.Body {
-				if r, ok := s.(*ast.ReturnStmt); ok && len(r.Results) > 0 && !isIdent(r.Results[len(r.Results)-1], "nil") {
-					defaultErr = true
+	var tags map[string]bool
+	if facts.ok {
+		// decided on the evaluation of parseFmtTypes for one format per conversion byte and the formats that separate the clauses
+		tags = facts.tags
+		want := []string{"d", "i", "o", "x", "X", "u", "c", "s", "e", "E", "f", "g", "G"}
+		var missing, extra []string
+		allowed := map[string]bool{"a": true, "A": true}
+		for _, w := range want {
+			allowed[w] = true
+			if _, ok := facts.accepted[w]; !ok {
+				missing = append(missing, w)
+			}
+		}
+		for l := range facts.accepted {
+			if !allowed[l] {
+				extra = append(extra, fmt.Sprintf("%q", l))
+			}
+		}
+		sort.Strings(extra)
+		c.check(len(missing) == 0 && len(extra) == 0, "letters", pf.Pos(), fmt.Sprintf("conversion letters accepted: d i o x X u c s e E f g G (+ a A): %d of the 238 possible conversion bytes", len(facts.accepted)), fmt.Sprintf("conversion letters handled differ from C printf's set: missing %v, unexpected %v", missing, extra))
+		c.check(len(facts.rejected)+len(facts.accepted) == 238 && facts.earlyEnd, "letters:default-error", pf.Pos(), fmt.Sprintf("each of the other %d conversion bytes, and a format that ends inside a conversion, is a run-time error", len(facts.rejected)), "an unknown conversion letter, or a format that ends inside a conversion, is not reported as an error (it would be passed to fmt and print garbage)")
+		c.check(len(facts.goUnknown) == 0, "letters:go-verb", pf.Pos(), "no accepted conversion leaves a letter in the translated format that Go's fmt does not know (i u a A are rewritten)", fmt.Sprintf("the conversion(s) %v are accepted but left as they are in the format handed to fmt.Sprintf, which does not know them: the output is %%!i(int=5) instead of the number", facts.goUnknown))
+		c.check(facts.gBare && facts.gPrecKept, "gprec", pf.Pos(), "%g/%G without a precision are translated to %.6g/%.6G (with any flags and width kept), and left alone when a precision is given", "%g/%G without a precision are not given C's default precision 6 (or one with a precision is changed): Go's fmt prints the shortest exact representation (0.3333333333333333) where C printf prints 6 significant digits (0.333333)")
+		c.check(facts.gAfterPrec, "gprec:per-conversion", pf.Pos(), "a bare %g after a conversion with a precision still gets .6", "a bare %g/%G that follows a conversion with a precision in the same format is not given C's default precision 6: the flag that records the precision survives from one conversion to the next (printf \"%.2f %g\", 1/3, 1/3 prints 0.33 0.3333333333333333)")
+		c.check(facts.star && facts.percent, "star", pf.Pos(), "each `*` adds one integer argument tag before the conversion's own; %% takes no argument", "a `*` (dynamic width/precision) does not add one integer argument tag per occurrence (or %% consumes an argument): `%*.*d` then consumes too few arguments and the too-few-arguments error is lost")
+	} else {
+		tags = func() map[string]bool {
+			// the switch over the conversion letter: the switch whose cases are byte constants incl. 's' and 'd'
+			var letterSw *ast.SwitchStmt
+			ast.Inspect(pf.Body, func(n ast.Node) bool {
+				sw, ok := n.(*ast.SwitchStmt)
+				if !ok || sw.Tag == nil {
+					return true
 				}
-			}
-			continue
-		}
-		var ls []string
-		for _, e := range cc.List {
-			if bl, ok := e.(*ast.BasicLit); ok {
-				l := strings.Trim(bl.Value, "'")
-				letters[l] = true
-				ls = append(ls, l)
-			}
-		}
-		for _, s := range cc.Body {
-			if as, ok := s.(*ast.AssignStmt); ok && len(as.Lhs) == 1 && isIdent(as.Lhs[0], "t") {
-				if bl, ok := as.Rhs[0].(*ast.BasicLit); ok {
-					tags[strings.Trim(bl.Value, "'")] = true
+				has := map[string]bool{}
+				for _, cs := range sw.Body.List {
+					for _, e := range cs.(*ast.CaseClause).List {
+						if bl, ok := e.(*ast.BasicLit); ok {
+							has[bl.Value] = true
+						}
+					}
 				}
-			}
-		}
-		// the clause holding g/G must not also hold e/f (or must branch on the precision)
-		hasG, hasEF := false, false
-		for _, l := range ls {
-			if l == "g" || l == "G" {
-				hasG = true
-			}
-			if l == "e" || l == "E" || l == "f" {
-				hasEF = true
-			}
-		}
-		if hasG {
-			branches := false
-			for _, s := range cc.Body {
-				if _, ok := s.(*ast.IfStmt); ok {
-					branches = true
+				if has["'s'"] && has["'d'"] {
+					letterSw = sw
 				}
+				return true
+			})
+			if letterSw == nil {
+				c.undecided("letters", pf.Pos(), "conversion-letter switch not found in parseFmtTypes (and the evaluation of parseFmtTypes on representative formats was not conclusive: %v)", facts.undecided)
+				return nil
 			}
-			if !hasEF && branches {
-				gClauseDistinct = true
-			}
-			if hasEF {
-				// same clause as e/f: acceptable only if it inspects the verb and precision itself
+			letters := map[string]bool{}
+			tags := map[string]bool{}
+			defaultErr := false
+			gClauseDistinct := false
+			for _, cs := range letterSw.Body.List {
+				cc := cs.(*ast.CaseClause)
+				if cc.List == nil {
+					for _, s := range cc.Body {
+						if r, ok := s.(*ast.ReturnStmt); ok && len(r.Results) > 0 && !isIdent(r.Results[len(r.Results)-1], "nil") {
+							defaultErr = true
+						}
+					}
+					continue
+				}
+				var ls []string
+				for _, e := range cc.List {
+					if bl, ok := e.(*ast.BasicLit); ok {
+						l := strings.Trim(bl.Value, "'")
+						letters[l] = true
+						ls = append(ls, l)
+					}
+				}
 				for _, s := range cc.Body {
-					if is, ok := s.(*ast.IfStmt); ok && strings.Contains(types.ExprString(is.Cond), "'g'") {
+					if as, ok := s.(*ast.AssignStmt); ok && len(as.Lhs) == 1 && isIdent(as.Lhs[0], "t") {
+						if bl, ok := as.Rhs[0].(*ast.BasicLit); ok {
+							tags[strings.Trim(bl.Value, "'")] = true
+						}
+					}
+				}
+				// the clause holding g/G must not also hold e/f (or must branch on the precision)
+				hasG, hasEF := false, false
+				for _, l := range ls {
+					if l == "g" || l == "G" {
+						hasG = true
+					}
+					if l == "e" || l == "E" || l == "f" {
+						hasEF = true
+					}
+				}
+				if hasG {
+					branches := false
+					for _, s := range cc.Body {
+						if _, ok := s.(*ast.IfStmt); ok {
+							branches = true
+						}
+					}
+					if !hasEF && branches {
 						gClauseDistinct = true
 					}
-				}
-			}
-		}
-	}
-	want := []string{"d", "i", "o", "x", "X", "u", "c", "s", "e", "E", "f", "g", "G"}
-	var missing, extra []string
-	for _, w := range want {
-		if !letters[w] {
-			missing = append(missing, w)
-		}
-	}
-	allowed := map[string]bool{"a": true, "A": true}
-	for _, w := range want {
-		allowed[w] = true
-	}
-	for l := range letters {
-		if !allowed[l] {
-			extra = append(extra, l)
-		}
-	}
-	sort.Strings(extra)
-	c.check(len(missing) == 0 && len(extra) == 0, "letters", letterSw.Pos(), "conversion letters handled: d i o x X u c s e E f g G (+ a A)", fmt.Sprintf("conversion letters handled differ from C printf's set: missing %v, unexpected %v", missing, extra))
-	c.check(defaultErr, "letters:default-error", letterSw.Pos(), "an unknown conversion letter is a run-time error", "an unknown conversion letter is not reported as an error (it would be passed to fmt and print garbage)")
-	c.check(gClauseDistinct, "gprec", letterSw.Pos(), "the g/G conversion is treated separately when no precision is given (C's default precision 6 vs Go's shortest form)", "%g/%G are translated exactly like %e/%f even when no precision is given: Go's fmt then prints the shortest exact representation (0.3333333333333333) where C printf prints 6 significant digits (0.333333)")
-
-	// STAR: append(types, <int tag>) under `== '*'` inside a for loop
-	starOK := false
-	ast.Inspect(pf.Body, func(n ast.Node) bool {
-		fs, ok := n.(*ast.ForStmt)
-		if !ok {
-			return true
-		}
-		ast.Inspect(fs.Body, func(m ast.Node) bool {
-			is, ok := m.(*ast.IfStmt)
-			if !ok || !strings.Contains(types.ExprString(is.Cond), "'*'") {
-				return true
-			}
-			for _, s := range is.Body.List {
-				if as, ok := s.(*ast.AssignStmt); ok && len(as.Rhs) == 1 {
-					if call, ok := as.Rhs[0].(*ast.CallExpr); ok && isIdent(call.Fun, "append") && len(call.Args) == 2 && types.ExprString(call.Args[0]) == "types" {
-						starOK = true
+					if hasEF {
+						// same clause as e/f: acceptable only if it inspects the verb and precision itself
+						for _, s := range cc.Body {
+							if is, ok := s.(*ast.IfStmt); ok && strings.Contains(types.ExprString(is.Cond), "'g'") {
+								gClauseDistinct = true
+							}
+						}
 					}
 				}
 			}
-			return true
-		})
-		return true
-	})
-	c.check(starOK, "star", pf.Pos(), "each `*` appends an integer argument tag inside the flag-scanning loop", "a `*` (dynamic width/precision) does not append one integer tag per occurrence inside the flag loop: `%*.*d` then consumes too few arguments and the too-few-arguments error is lost")
+			want := []string{"d", "i", "o", "x", "X", "u", "c", "s", "e", "E", "f", "g", "G"}
+			var missing, extra []string
+			for _, w := range want {
+				if !letters[w] {
+					missing = append(missing, w)
+				}
+			}
+			allowed := map[string]bool{"a": true, "A": true}
+			for _, w := range want {
+				allowed[w] = true
+			}
+			for l := range letters {
+				if !allowed[l] {
+					extra = append(extra, l)
+				}
+			}
+			sort.Strings(extra)
+			c.check(len(missing) == 0 && len(extra) == 0, "letters", letterSw.Pos(), "conversion letters handled: d i o x X u c s e E f g G (+ a A)", fmt.Sprintf("conversion letters handled differ from C printf's set: missing %v, unexpected %v", missing, extra))
+			c.check(defaultErr, "letters:default-error", letterSw.Pos(), "an unknown conversion letter is a run-time error", "an unknown conversion letter is not reported as an error (it would be passed to fmt and print garbage)")
+			c.check(gClauseDistinct, "gprec", letterSw.Pos(), "the g/G conversion is treated separately when no precision is given (C's default precision 6 vs Go's shortest form)", "%g/%G are translated exactly like %e/%f even when no precision is given: Go's fmt then prints the shortest exact representation (0.3333333333333333) where C printf prints 6 significant digits (0.333333)")
 
+			// the flags the g/G clause consults describe this conversion only: a local variable its conditions read is
+			// declared inside the loop over the format (fresh for every conversion) or assigned unconditionally, before the
+			// switch, in a block that encloses it; a flag that survives from one conversion to the next makes a bare %g
+			// after a %.2f look as if it had a precision
+			{
+				info := c.pkg("interp").TypesInfo
+				var outer *ast.ForStmt
+				ast.Inspect(pf.Body, func(n ast.Node) bool {
+					if f, ok := n.(*ast.ForStmt); ok && outer == nil && f.Pos() <= letterSw.Pos() && letterSw.End() <= f.End() {
+						outer = f
+					}
+					return true
+				})
+				var carried []string
+				nFlags := 0
+				if outer != nil {
+					for _, cs := range letterSw.Body.List {
+						cc := cs.(*ast.CaseClause)
+						isG := false
+						for _, e := range cc.List {
+							if bl, ok := e.(*ast.BasicLit); ok && (bl.Value == "'g'" || bl.Value == "'G'") {
+								isG = true
+							}
+						}
+						if !isG {
+							continue
+						}
+						for _, st := range cc.Body {
+							is, ok := st.(*ast.IfStmt)
+							if !ok {
+								continue
+							}
+							ast.Inspect(is.Cond, func(n ast.Node) bool {
+								id, ok := n.(*ast.Ident)
+								if !ok {
+									return true
+								}
+								v, ok := info.Uses[id].(*types.Var)
+								if !ok || v.IsField() || v.Parent() == nil || v.Parent() == v.Pkg().Scope() {
+									return true
+								}
+								if b, isB := v.Type().Underlying().(*types.Basic); !isB || b.Kind() != types.Bool {
+									return true
+								}
+								nFlags++
+								if outer.Body.Pos() <= v.Pos() && v.Pos() < outer.Body.End() {
+									return true // declared per iteration
+								}
+								// assigned unconditionally before the switch in an enclosing block of the loop body
+								reset := false
+								var scan func(b *ast.BlockStmt)
+								scan = func(b *ast.BlockStmt) {
+									for _, s2 := range b.List {
+										if s2.Pos() > letterSw.Pos() {
+											break
+										}
+										if as, ok := s2.(*ast.AssignStmt); ok {
+											for _, l := range as.Lhs {
+												if lid, ok := l.(*ast.Ident); ok && (info.Uses[lid] == v || info.Defs[lid] == v) {
+													reset = true
+												}
+											}
+										}
+										if s2.Pos() <= letterSw.Pos() && letterSw.End() <= s2.End() {
+											switch x := s2.(type) {
+											case *ast.IfStmt:
+												scan(x.Body)
+											case *ast.BlockStmt:
+												scan(x)
+											}
+										}
+									}
+								}
+								scan(outer.Body)
+								if !reset {
+									carried = append(carried, id.Name)
+								}
+								return true
+							})
+						}
+					}
+				}
+				if outer != nil && nFlags > 0 {
+					c.check(len(carried) == 0, "gprec:per-conversion", letterSw.Pos(), "the flags the g/G clause consults are fresh for every conversion",
+						fmt.Sprintf("the g/G clause of parseFmtTypes decides on %v, which is declared outside the loop over the format and not reset for each conversion: once one conversion of a format has a precision, a later bare %%g/%%G of the same format is no longer given C's default precision 6 (printf \"%%.2f %%g\", 1/3, 1/3 prints 0.33 0.3333333333333333)", carried))
+				}
+			}
+
+			// STAR: append(types, <int tag>) under `== '*'` inside a for loop
+			starOK := false
+			ast.Inspect(pf.Body, func(n ast.Node) bool {
+				fs, ok := n.(*ast.ForStmt)
+				if !ok {
+					return true
+				}
+				ast.Inspect(fs.Body, func(m ast.Node) bool {
+					is, ok := m.(*ast.IfStmt)
+					if !ok || !strings.Contains(types.ExprString(is.Cond), "'*'") {
+						return true
+					}
+					for _, s := range is.Body.List {
+						if as, ok := s.(*ast.AssignStmt); ok && len(as.Rhs) == 1 {
+							if call, ok := as.Rhs[0].(*ast.CallExpr); ok && isIdent(call.Fun, "append") && len(call.Args) == 2 && types.ExprString(call.Args[0]) == "types" {
+								starOK = true
+							}
+						}
+					}
+					return true
+				})
+				return true
+			})
+			c.check(starOK, "star", pf.Pos(), "each `*` appends an integer argument tag inside the flag-scanning loop", "a `*` (dynamic width/precision) does not append one integer tag per occurrence inside the flag loop: `%*.*d` then consumes too few arguments and the too-few-arguments error is lost")
+			return tags
+		}()
+		if tags == nil {
+			return
+		}
+	}
 	// TAGS, COUNT, CHAR: sprintf evaluated per argument tag on the SSA form (rule_fmtsem.go)
 	tags["d"] = true // also appended for '*'
 	sem := fmtSprintfSem(c, tags)
